@@ -409,6 +409,18 @@ class Call:
             out.append("falsy:data_component_exactly_0_everywhere")
         if self.weights is not None and any(np.all(w == 1) for w in self.weights):
             out.append("falsy:weights_exactly_1")
+        if self.weights is not None:
+            zero_everywhere = np.all([w == 0 for w in self.weights], axis=0)
+            if zero_everywhere.any():
+                out.append("weights_exactly_0_in_all_components_on_some_points")
+                e, n = self.coords[0], self.coords[1]
+                on_box = (e == e.min()) | (e == e.max()) | (n == n.min()) | (n == n.max())
+                if (zero_everywhere & on_box).any():
+                    out.append("zero_weight_point_on_the_bounding_box:region_%s" % ("inferred" if est.region is None else "given"))
+        if len(self.coords) >= 11:
+            out.append("coordinate_arrays:11_or_more(drop_coords=%s)" % bool(est.drop_coords))
+        elif len(self.coords) == 10:
+            out.append("coordinate_arrays:exactly_10(drop_coords=%s)" % bool(est.drop_coords))
         kinds = set(container_kind(x) for x in list(self.raw_coordinates) + list(as_tuple(self.raw_data))
                     + (list(as_tuple(self.raw_weights)) if self.weights is not None else []))
         if "series_custom_index" in kinds:
@@ -948,3 +960,63 @@ def large_field(rng, east, north, amplitude=100.0):
     y = (north - north.min()) / (np.ptp(north) or 1.0)
     a, b, c = rng.uniform(3, 9, 3)
     return amplitude * (np.sin(a * x) * np.cos(b * y) + 0.3 * x * y + rng.normal(size=x.size) * (0.2 + 0.8 * np.sin(c * x) ** 2))
+
+
+# --------------------------------------------------------------------------
+# many coordinate arrays; exact-zero weights on the bounding box
+# --------------------------------------------------------------------------
+def many_coordinates(rng, east, north, n_arrays):
+    """easting, northing and n_arrays - 2 mutually different extras: extra k = 1000 * k + noise (so a mix-up of two arrays is visible)."""
+    extras = [1000.0 * k + rng.uniform(5, 50) * rng.normal(size=east.size) for k in range(2, n_arrays)]
+    return [east, north] + extras
+
+
+def zero_weight_border_case(rng, ncomp, region_given=False):
+    """
+    A cloud whose westernmost, easternmost, southernmost and northernmost points (each with a close companion that shares its
+    block) define the bounding box, block arguments WITHOUT a region (unless region_given), and per-component weights that are
+    exactly 0.0 - in all components - on some of those border points and on a few others. A point only gets weight zero if
+    another point that certainly lies in the same reference block keeps a positive weight (np.average refuses a block whose
+    weights sum to zero). Returns (east, north, kwargs, weights, number of zero-weight points on the bounding box).
+    """
+    east, north = make_points(rng, n=int(rng.integers(12, 70)), kind=str(rng.choice(["uniform", "jitter", "clusters"])))
+    width, height = (np.ptp(east) or 1.0), (np.ptp(north) or 1.0)
+    tiny_e, tiny_n = 2e-3 * width, 2e-3 * height
+    mid_e, mid_n = rng.uniform(east.min(), east.max(), 2), rng.uniform(north.min(), north.max(), 2)
+    border = [(east.min() - rng.uniform(0.05, 0.4) * width, mid_n[0], +1, 0), (east.max() + rng.uniform(0.05, 0.4) * width, mid_n[1], -1, 0),
+              (mid_e[0], north.min() - rng.uniform(0.05, 0.4) * height, 0, +1), (mid_e[1], north.max() + rng.uniform(0.05, 0.4) * height, 0, -1)]
+    extra_e, extra_n = [], []
+    for x, y, sx, sy in border:
+        extra_e += [x, x + sx * tiny_e + (tiny_e if sx == 0 else 0.0)]
+        extra_n += [y, y + sy * tiny_n + (tiny_n if sy == 0 else 0.0)]
+    first_border = east.size
+    east = np.concatenate([east, extra_e])
+    north = np.concatenate([north, extra_n])
+    perm = rng.permutation(east.size)
+    east, north = np.ascontiguousarray(east[perm]), np.ascontiguousarray(north[perm])
+    border_idx = [int(np.flatnonzero(perm == first_border + 2 * k)[0]) for k in range(4)]
+    kwargs = make_blocks(rng, east, north)
+    kwargs.pop("region", None)
+    if region_given:
+        kwargs["region"] = [float(east.min() - 0.1 * width), float(east.max() + 0.2 * width), float(north.min() - 0.15 * height), float(north.max())]
+    geo = Geometry(east, north, kwargs.get("spacing"), kwargs.get("shape"), kwargs.get("adjust", "spacing"), kwargs.get("region"))
+    clo, chi = geo.east.locate(east)
+    rlo, rhi = geo.north.locate(north)
+    sure = (clo == chi) & (rlo == rhi)
+    label = rlo * geo.east.n + clo
+    weights = [10 ** rng.uniform(-2, 2, east.size) for _ in range(ncomp)]
+    positive = np.ones(east.size, dtype=bool)
+    candidates = list(rng.permutation(border_idx)) + list(rng.permutation(east.size)[: max(1, east.size // 8)])
+    on_box = 0
+    for k in candidates:
+        k = int(k)
+        if not positive[k] or not sure[k]:
+            continue
+        mates = sure & positive & (label == label[k])
+        mates[k] = False
+        if mates.any():
+            positive[k] = False
+            on_box += int(k in border_idx)
+    for w in weights:
+        w[~positive] = 0.0
+    return east, north, kwargs, weights, on_box
